@@ -1,4 +1,5 @@
 import RTV.Lemmas.Unit
+import RTV.Lemmas.UnitExtract
 import Mathlib.Tactic.Ring
 /-!
 # C05 — every listed unit spelling maps to its canonical unit and keeps the number
@@ -7,8 +8,11 @@ Theorems about `RTV.Model.Unit` (mirrors `number_with_unit/utilities.py` and `pa
 table, spelling and numeral; the tables actually wired into the registered models are regenerated from the working
 tree on every run and fed to the same model functions by the correspondence (`harness/corr/c05.py`), which also
 replays every (culture, type, unit, spelling) row through `recognize_*`.
-What is *not* modelled: the extractor's regex/StringMatcher plumbing that decides which span reaches the parser
-(tied by the exhaustive table correspondence only).
+The second half of the file is about `RTV.Model.UnitExtract` (mirrors `NumberWithUnitExtractor.extract` and
+`_select_candidates` of `number_with_unit/extractors.py`): what the extractor hands to the parser, for **any** behaviour
+of the StringMatcher, the number extractor and the gating regexes (they are parameters of the model) that satisfies the
+stated well-formedness (spans inside the string, number texts = slices). The correspondence replays recorded calls of
+the real `extract` through the same definitions.
 -/
 namespace RTV.Unit
 
@@ -100,3 +104,327 @@ example : dget (buildUnitMap (fun c => c == 32)
   decide
 
 end RTV.Unit
+
+/-! ## The extractor: `NumberWithUnitExtractor.extract` -/
+namespace RTV.UnitExtract
+
+/-- C05(e) **longest suffix wins** (`max_len`, the `for m in suffix_match` loop), for a number that ends at `fi` with
+text after it (`max_find_suff > 0`), any list of suffix matches:
+(1) the result reaches at least to the end of every admissible match (`m.length > 0`, `m.start ≥ fi`, and the text between
+number and match is empty / blank / the connector token, or the match is bracketed);
+(2) `max_len` is 0 (no result) or exactly the reach of one admissible match — the end of the match, plus the closing
+bracket when the bracket rule fired. -/
+theorem nwu_longest_suffix_wins (c : Cfg) (src : Str) (fi : Nat) (sm : List MR) (hfi : fi < src.length) :
+    (∀ m ∈ sm, Admissible c src fi m → endPos fi m ≤ maxSuffix c src fi sm) ∧
+    (maxSuffix c src fi sm = 0 ∨ ∃ m ∈ sm, Admissible c src fi m ∧ maxSuffix c src fi sm = reach src fi m) := by
+  have e : maxSuffix c src fi sm = maxSuffixFrom c src fi sm 0 := by simp [maxSuffix, hfi]
+  rw [e]
+  exact ⟨fun m hm ha => maxSuffixFrom_ge c src fi sm 0 m hm ha, maxSuffixFrom_attained c src fi sm 0⟩
+
+/- Full-strength statement "`max_len` is the furthest reach of all admissible matches"
+     `∀ m ∈ sm, Admissible c src fi m → reach src fi m ≤ maxSuffix c src fi sm`
+   is FALSE of the code: a bracketed match whose `end_pos` equals the current `max_len` is skipped by the
+   `if max_len < end_pos` gate although it would reach one character further (its closing bracket). -/
+
+/-- … it holds when no match triggers the bracket rule: then `max_len` is the maximum of `end_pos` over the admissible
+matches. -/
+theorem nwu_furthest_reach_partial (c : Cfg) (src : Str) (fi : Nat) (sm : List MR) (hfi : fi < src.length)
+    (hnb : ∀ m ∈ sm, bracketOK src fi m = false) :
+    (∀ m ∈ sm, Admissible c src fi m → reach src fi m ≤ maxSuffix c src fi sm) ∧
+    (maxSuffix c src fi sm = 0 ∨ ∃ m ∈ sm, Admissible c src fi m ∧ maxSuffix c src fi sm = endPos fi m) := by
+  obtain ⟨h1, h2⟩ := nwu_longest_suffix_wins c src fi sm hfi
+  refine ⟨fun m hm ha => ?_, ?_⟩
+  · have := h1 m hm ha
+    simpa [reach, hnb m hm] using this
+  · rcases h2 with h | ⟨m, hm, ha, he⟩
+    · exact Or.inl h
+    · exact Or.inr ⟨m, hm, ha, by simpa [reach, hnb m hm] using he⟩
+
+/-- … and fails in general. Witness: source `5 x(y)`, number `5` (ends at 1), suffix matches `x(y` at 2 and `y` at 4.
+The first is admissible through a blank (`end_pos` 4), the second through the bracket rule (`end_pos` 4, reach 5,
+closing bracket included); the code answers `max_len = 4` (`5 x(y`), although the second match alone gives 5 (`5 x(y)`). -/
+theorem nwu_furthest_reach_counterexample :
+    let c : Cfg := ⟨fun ch => ch == 32, [], 0, false, false⟩
+    let src : Str := [53, 32, 120, 40, 121, 41]
+    let m1 : MR := ⟨2, 3, [120, 40, 121]⟩
+    let m2 : MR := ⟨4, 1, [121]⟩
+    (plainOK c src 1 m1 = true ∧ bracketOK src 1 m2 = true ∧ reach src 1 m2 = 5) ∧
+    maxSuffix c src 1 [m1, m2] = 4 ∧ maxSuffix c src 1 [m2] = 5 := by
+  decide
+
+/-- C05(f) **suffix result** (`nwu_suffix_span`): a number without a prefix unit whose suffix search succeeds
+(`max_len = L ≠ 0`, not discarded by the dimension/time test) yields exactly one new result: it starts at the number,
+is `L` longer than the number, its text is that slice of the source, the number handed to the parser sits at relative
+position 0, and the result is flagged "unit is not a prefix". With the suffix matches inside the string the slice has
+the full length, i.e. the result ends where the furthest admissible match ends (`nwu_longest_suffix_wins`). -/
+theorem nwu_suffix_span (c : Cfg) (src : Str) (pm sm : List MR) (nonUnit : List (Nat × Nat)) (st : St) (n : Num)
+    (hpu : mget (prefixSearch c src pm st.mapping n) n.start = none)
+    (hL : maxSuffix c src (n.start + n.len) sm ≠ 0)
+    (hnu : (c.isDimension && insideNonUnit nonUnit n.start (n.len + maxSuffix c src (n.start + n.len) sm)) = false) :
+    (step c src pm sm nonUnit st n).result = st.result ++
+        [⟨n.start, n.len + maxSuffix c src (n.start + n.len) sm,
+          slice src n.start (n.start + n.len + maxSuffix c src (n.start + n.len) sm), some ⟨0, n.len, n.text⟩⟩] ∧
+      (step c src pm sm nonUnit st n).flags = st.flags ++ [false] ∧
+      ((∀ m ∈ sm, m.start + m.len ≤ src.length) → n.start + n.len ≤ src.length →
+        (slice src n.start (n.start + n.len + maxSuffix c src (n.start + n.len) sm)).length =
+          n.len + maxSuffix c src (n.start + n.len) sm) := by
+  obtain ⟨_, e2⟩ := step_cases c src pm sm nonUnit st n _ _ _ rfl rfl rfl
+  rw [hpu] at e2
+  simp only [suffixER, Nat.sub_self] at e2
+  refine ⟨?_, ?_, ?_⟩
+  · rcases e2 with ⟨_, _, er, _, _⟩ | ⟨h0, _⟩ | ⟨er, _⟩
+    · exact er
+    · exact absurd h0 hL
+    · exfalso
+      unfold step at er
+      simp only [hpu, hL, ne_eq, not_false_eq_true, if_true, suffixER, Nat.sub_self, hnu] at er
+      simp at er
+  · rcases e2 with ⟨_, _, _, ef, _⟩ | ⟨h0, _⟩ | ⟨_, ef⟩
+    · exact ef
+    · exact absurd h0 hL
+    · exfalso
+      unfold step at ef
+      simp only [hpu, hL, ne_eq, not_false_eq_true, if_true, suffixER, Nat.sub_self, hnu] at ef
+      simp at ef
+  · intro hsm hn
+    have := maxSuffix_inside c src (n.start + n.len) sm hsm hn
+    rw [slice_length_le] <;> omega
+
+/-- C05(g) **prefix result** (`nwu_prefix_span`): when the prefix search finds `m` for a number `n` (first number at that
+position), `m` is a non-empty prefix match that ends at or before the number and whose text is the stripped source between
+its start and the number; the unit string kept is the source from `m.start` to the number, the offset is `n.start - m.start`.
+If the suffix search also succeeds, the one new result starts at `m.start`, its text is prefix unit ++ suffix slice and the
+relative number start handed to the parser is the offset; if it does not (and no earlier number had both), the one new
+result is `unit ++ number` starting at `m.start`, relative number start = offset, flagged "unit is prefix". -/
+theorem nwu_prefix_span (c : Cfg) (src : Str) (pm sm : List MR) (nonUnit : List (Nat × Nat)) (st : St) (n : Num) (m : MR)
+    (hgate : min c.maxPrefixLen n.start ≠ 0) (hb : bestPrefix c.sp src n.start pm = some m)
+    (hfirst : mget st.mapping n.start = none) :
+    (m ∈ pm ∧ 0 < m.len ∧ m.start + m.len ≤ n.start ∧ strip c.sp (slice src m.start n.start) = m.text) ∧
+    mget (prefixSearch c src pm st.mapping n) n.start = some (n.start - m.start, slice src m.start n.start) ∧
+    (∀ L, maxSuffix c src (n.start + n.len) sm = L → L ≠ 0 →
+      (c.isDimension && insideNonUnit nonUnit m.start (n.len + L + (n.start - m.start))) = false →
+      (step c src pm sm nonUnit st n).result = st.result ++
+        [⟨m.start, n.len + L + (n.start - m.start),
+          slice src m.start n.start ++ slice src n.start (n.start + n.len + L),
+          some ⟨n.start - m.start, n.len, n.text⟩⟩] ∧
+      (step c src pm sm nonUnit st n).flags = st.flags ++ [false]) ∧
+    (maxSuffix c src (n.start + n.len) sm = 0 → st.prefixMatched = false →
+      (step c src pm sm nonUnit st n).result = st.result ++
+        [⟨m.start, n.len + (n.start - m.start), slice src m.start n.start ++ n.text,
+          some ⟨n.start - m.start, n.len, n.text⟩⟩] ∧
+      (step c src pm sm nonUnit st n).flags = st.flags ++ [true]) := by
+  have hs := bestPrefix_spec _ _ _ _ _ hb
+  have hle : m.start ≤ n.start := by have := hs.2.1; have := hs.2.2.1; omega
+  have hmp : mget (prefixSearch c src pm st.mapping n) n.start = some (n.start - m.start, slice src m.start n.start) := by
+    unfold prefixSearch
+    simp only [hgate, ne_eq, not_false_eq_true, if_true, hb, mget_addElement, hfirst]
+    simp
+    congr 1; omega
+  have e3 : n.start - (n.start - m.start) = m.start := by omega
+  refine ⟨hs, hmp, ?_, ?_⟩
+  · intro L hL hL0 hnu
+    obtain ⟨_, e2⟩ := step_cases c src pm sm nonUnit st n _ _ L rfl hmp hL
+    simp only [suffixER, e3] at e2
+    rcases e2 with ⟨_, _, er, ef, _⟩ | ⟨h0, _⟩ | ⟨er, ef⟩
+    · exact ⟨er, ef⟩
+    · exact absurd h0 hL0
+    · exfalso
+      unfold step at ef
+      simp only [hmp, hL, hL0, ne_eq, not_false_eq_true, if_true, suffixER, e3, hnu] at ef
+      simp at ef
+  · intro hL hpm
+    obtain ⟨_, e2⟩ := step_cases c src pm sm nonUnit st n _ _ 0 rfl hmp hL
+    simp only [prefixOnlyER] at e2
+    rcases e2 with ⟨h0, _⟩ | ⟨_, _, p, hp, er, ef, _⟩ | ⟨er, ef⟩
+    · exact absurd rfl h0
+    · simp only [Option.some.injEq] at hp
+      subst hp
+      simp only [e3] at er
+      exact ⟨er, ef⟩
+    · exfalso
+      unfold step at ef
+      simp only [hmp, hL, ne_eq, not_true_eq_false, if_false, hpm, prefixOnlyER] at ef
+      simp at ef
+
+/-- C05(h) / C01 **every result's text is the slice it claims** (`nwu_result_text_is_slice`): for well-formed inputs
+(`WF`: suffix matches and numbers inside the string, number and separate-unit texts = slices), whatever the prefix
+matcher, the filters (masks) and the non-unit regex do, every result `extract` returns before `expand_half_suffix`
+lies inside the string the loop worked on and `text = source[start : start+length]`. -/
+theorem nwu_result_text_is_slice (c : Cfg) (i : Inputs) (h : WF c i) (rs : List ER) (he : extractPre c i = some rs) :
+    ∀ r ∈ rs, r.start + r.len ≤ (fixedSource c i).length ∧
+      r.text = slice (fixedSource c i) r.start (r.start + r.len) := fun r hr =>
+  ⟨(extractPre_resOK c i h rs he r hr).1, (extractPre_resOK c i h rs he r hr).2.1⟩
+
+/-- … and of the whole `extract` for every configuration whose `expand_half_suffix` is `pass` (all but the Chinese one:
+no half-unit flags). -/
+theorem nwu_result_text_is_slice_full (c : Cfg) (i : Inputs) (h : WF c i) (hh : ∀ b ∈ i.half, b = false)
+    (rs : List ER) (he : extract c i = some rs) :
+    ∀ r ∈ rs, r.text = slice (fixedSource c i) r.start (r.start + r.len) := by
+  unfold extract at he
+  split at he
+  · simp only [Option.some.injEq] at he; subst he; intro r hr; simp at hr
+  · cases hp : extractPre c i with
+    | none => simp [hp] at he
+    | some pre =>
+      simp only [hp, Option.map_some, Option.some.injEq, expandHalf_no_half _ _ _ hh] at he
+      subst he
+      exact fun r hr => (nwu_result_text_is_slice c i h pre hp r hr).2
+
+/-- C05(i) **what the parser receives** (`nwu_relative_number_start`): every returned result that carries a number `d`
+has `text = pre ++ d.text ++ rest` with `d.start = |pre|` and `d.length = |d.text|` — exactly the shape
+`key_assembly_suffix` (`pre = []`) and `key_assembly_prefix` (`rest = []`) are stated for. -/
+theorem nwu_relative_number_start (c : Cfg) (i : Inputs) (h : WF c i) (rs : List ER) (he : extractPre c i = some rs) :
+    ∀ r ∈ rs, ∀ d, r.data = some d →
+      ∃ pre rest, r.text = pre ++ d.text ++ rest ∧ d.start = pre.length ∧ d.len = d.text.length := fun r hr =>
+  (extractPre_resOK c i h rs he r hr).2.2
+
+/-- C05(j) **extractor → parser, end to end** (`extract_then_parse_unit`): source = numeral ++ blanks ++ spelling, the
+number extractor reports the numeral, the suffix matcher reports the spelling (any further matches inside the string,
+any prefix matches). Then the number loop produces exactly one result, the whole source with the number at relative
+position 0, and the parser's unit lookup on what it receives answers the unit the map assigns to the spelling
+(no connector token, spelling without outer blanks or brackets — `parse_suffix_unit`). -/
+theorem extract_then_parse_unit (c : Cfg) (lower : Str → Str) (unitMap : Unit.Dict) (num sep form u : Str)
+    (pm sm : List MR) (nonUnit : List (Nat × Nat))
+    (hn : num ≠ []) (hf : form ≠ []) (hsep : ∀ ch ∈ sep, c.sp ch = true)
+    (hsm : ∀ m ∈ sm, m.start + m.len ≤ (num ++ sep ++ form).length)
+    (hm : (⟨num.length + sep.length, form.length, form⟩ : MR) ∈ sm)
+    (hnu : (c.isDimension && insideNonUnit nonUnit 0 (num ++ sep ++ form).length) = false)
+    (hstrip : Unit.strip c.sp (sep ++ form) = form) (hb : Unit.deleteBrackets form = form)
+    (hmap : Unit.dget unitMap form = some u) (hu : u ≠ []) :
+    (coreLoop c (num ++ sep ++ form) pm sm nonUnit [⟨0, num.length, num⟩]).result =
+        [⟨0, (num ++ sep ++ form).length, num ++ sep ++ form, some ⟨0, num.length, num⟩⟩] ∧
+      (coreLoop c (num ++ sep ++ form) pm sm nonUnit [⟨0, num.length, num⟩]).flags = [false] ∧
+      Unit.parseUnit c.sp lower unitMap [] (num ++ sep ++ form) 0 num.length = some u := by
+  have hnl : 0 < num.length := List.length_pos_iff.mpr hn
+  have hfl : 0 < form.length := List.length_pos_iff.mpr hf
+  have hlen : (num ++ sep ++ form).length = num.length + sep.length + form.length := by simp; omega
+  -- the suffix search reaches the end of the string
+  have hfi : num.length < (num ++ sep ++ form).length := by omega
+  have hmid : slice (num ++ sep ++ form) num.length (num.length + sep.length) = sep := by
+    rw [List.append_assoc, slice_append_right]; simp
+  have hadm : Admissible c (num ++ sep ++ form) num.length ⟨num.length + sep.length, form.length, form⟩ := by
+    refine ⟨hfl, by simp, Or.inl ?_⟩
+    simp only [plainOK, hmid]
+    by_cases he : sep = []
+    · simp [he]
+    · have : isSpaceStr c.sp sep = true := by
+        simp [isSpaceStr, he, List.all_eq_true]; exact hsep
+      simp [this]
+  have hge := (nwu_longest_suffix_wins c _ num.length sm hfi).1 _ hm hadm
+  have hle := maxSuffix_inside c _ num.length sm hsm (by omega)
+  have hL : maxSuffix c (num ++ sep ++ form) num.length sm = sep.length + form.length := by
+    simp only [endPos] at hge; omega
+  -- one iteration of the loop
+  have hpu : mget (prefixSearch c (num ++ sep ++ form) pm St.init.mapping ⟨0, num.length, num⟩)
+      (⟨0, num.length, num⟩ : Num).start = none := by
+    simp [prefixSearch, St.init, mget]
+  have hspan := nwu_suffix_span c (num ++ sep ++ form) pm sm nonUnit St.init ⟨0, num.length, num⟩ hpu
+    (by simp only [Nat.zero_add, hL]; omega)
+    (by simp only [Nat.zero_add, hL]; rw [hlen] at hnu; rw [← hnu]; congr 2; omega)
+  simp only [Nat.zero_add, hL] at hspan
+  have e1 : num.length + (sep.length + form.length) = (num ++ sep ++ form).length := by omega
+  refine ⟨?_, ?_, ?_⟩
+  · show (step c (num ++ sep ++ form) pm sm nonUnit St.init ⟨0, num.length, num⟩).result = _
+    rw [hspan.1, e1, slice_zero_length]; rfl
+  · show (step c (num ++ sep ++ form) pm sm nonUnit St.init ⟨0, num.length, num⟩).flags = _
+    rw [hspan.2.1]; rfl
+  · rw [List.append_assoc]
+    exact Unit.parse_suffix_unit c.sp lower unitMap num (sep ++ form) u hn (by simp [hf]) hu
+      (by rw [hstrip]; exact hb) (by rw [hstrip]; exact hmap)
+
+/-! ### `_select_candidates` (currency) -/
+
+/-- No collision between neighbouring candidates ⇒ the list is returned unchanged (separate units included). -/
+theorem select_no_conflict_identity (sp : Nat → Bool) (srcLen : Nat) (ers : List ER) (flags : List Bool)
+    (hlen : flags.length ≤ ers.length) (hnc : hasConflict (ers.take flags.length) = false) :
+    selectCandidates sp srcLen ers flags = some ers := by
+  unfold selectCandidates
+  have : ¬ (flags.length ≥ 2 ∧ flags.length > ers.length) := by omega
+  simp [this, hnc]
+
+/-- Whatever it returns was in the list it was given (it never invents or alters a result). -/
+theorem select_results_from_input (sp : Nat → Bool) (srcLen : Nat) (ers : List ER) (flags : List Bool) (out : List ER)
+    (h : selectCandidates sp srcLen ers flags = some out) : ∀ r ∈ out, r ∈ ers :=
+  selectCandidates_mem sp srcLen ers flags out h
+
+/- Natural statement "`_select_candidates` always returns" is FALSE of the code: `total_candidate` is the number of
+   results the loop produced (`len(unit_is_prefix)`), but `ers` has been through `_filter_ambiguity` by then. -/
+
+/-- … it returns whenever the filters removed nothing the loop produced (`|flags| ≤ |ers|`) and the last candidate ends
+inside the string … -/
+theorem select_returns_partial (sp : Nat → Bool) (srcLen : Nat) (ers : List ER) (flags : List Bool)
+    (hlen : flags.length ≤ ers.length)
+    (hin : ∀ r ∈ ers, erEnd r ≤ (srcLen : Int)) :
+    (selectCandidates sp srcLen ers flags).isSome = true := by
+  unfold selectCandidates
+  have : ¬ (flags.length ≥ 2 ∧ flags.length > ers.length) := by omega
+  simp only [this, if_false]
+  split
+  · rfl
+  · have hs : (suffixPass srcLen ((ers.take flags.length).zip flags)).isSome = true := by
+      unfold suffixPass
+      rw [Option.isSome_map]
+      have gen : ∀ (l : List (ER × Bool)) (cur : Int) (res : List ER),
+          (∀ eb ∈ l, erEnd eb.1 ≤ (srcLen : Int)) → (res = [] → cur = (srcLen : Int)) →
+          (l.foldl suffixPassStep (some (cur, res))).isSome = true := by
+        intro l
+        induction l with
+        | nil => intro cur res _ _; rfl
+        | cons x xs ih =>
+          intro cur res hl hc
+          simp only [List.foldl_cons, suffixPassStep]
+          have hx := hl x List.mem_cons_self
+          have hxs : ∀ eb ∈ xs, erEnd eb.1 ≤ (srcLen : Int) := fun eb h => hl eb (List.mem_cons_of_mem _ h)
+          split
+          · exact ih _ _ hxs (by simp)
+          · split
+            · split
+              · rename_i hge _ hemp
+                have : res = [] := by simpa using hemp
+                have := hc this
+                omega
+              · exact ih _ _ hxs (by simp)
+            · exact ih _ _ hxs hc
+      apply gen _ _ _ _ (fun _ => rfl)
+      intro eb heb
+      have := (List.of_mem_zip (List.mem_reverse.mp heb)).1
+      exact hin _ ((List.take_sublist _ _).subset this)
+    cases h : suffixPass srcLen ((ers.take flags.length).zip flags) with
+    | none => rw [h] at hs; simp at hs
+    | some suf => simp only; split <;> rfl
+
+/-- … and raises `IndexError` otherwise. Witness (shape of `model 5usd3 costs 7 dollars`, English currency: the loop
+produced two results, the ambiguity filter removed the first): two flags, one remaining result. -/
+theorem select_misaligned_raises :
+    selectCandidates (fun ch => ch == 32) 27 [⟨18, 9, [55, 32, 100, 111, 108, 108, 97, 114, 115], some ⟨0, 1, [55]⟩⟩]
+      [false, false] = none := by
+  decide
+
+/-! ### examples (hypotheses are satisfiable; the model computes) — blank = 32 -/
+
+/-- `7 kg`: suffix match `kg` at 2 → one result, the whole string, number at relative position 0. -/
+example : (coreLoop ⟨fun ch => ch == 32, [], 0, false, false⟩ [55, 32, 107, 103] [] [⟨2, 2, [107, 103]⟩] [] [⟨0, 1, [55]⟩]).result =
+    [⟨0, 4, [55, 32, 107, 103], some ⟨0, 1, [55]⟩⟩] := by decide
+
+/-- `$ 7`: prefix match `$` at 0 → prefix-only result, number at relative position 2, flagged prefix. -/
+example : let st := coreLoop ⟨fun ch => ch == 32, [], 3, true, false⟩ [36, 32, 55] [⟨0, 1, [36]⟩] [] [] [⟨2, 1, [55]⟩]
+    st.result = [⟨0, 3, [36, 32, 55], some ⟨2, 1, [55]⟩⟩] ∧ st.flags = [true] := by decide
+
+/-- `5 (kg)`: the bracket rule takes the closing bracket in. -/
+example : maxSuffix ⟨fun ch => ch == 32, [], 0, false, false⟩ [53, 32, 40, 107, 103, 41] 1 [⟨3, 2, [107, 103]⟩] = 5 := by decide
+
+/- Natural statement "a number with a prefix unit and no suffix unit yields a prefix result" is FALSE of the code:
+   `prefix_matched` is set by the first number that has both a prefix and a suffix unit and is never reset. -/
+
+/-- … it holds while no earlier number had both (`nwu_prefix_span`, hypothesis `st.prefixMatched = false`); witness of
+the failure: `$5 u $7` with prefix matches `$`@0, `$`@5 and suffix match `u`@3 — the loop returns `$5 u` only, `$7` is
+dropped (observed on the real recogniser: `$5 usd and $7` → one entity). -/
+theorem nwu_prefix_only_suppressed_witness :
+    (coreLoop ⟨fun ch => ch == 32, [], 3, true, false⟩ [36, 53, 32, 117, 32, 36, 55]
+      [⟨0, 1, [36]⟩, ⟨5, 1, [36]⟩] [⟨3, 1, [117]⟩] [] [⟨1, 1, [53]⟩, ⟨6, 1, [55]⟩]).result =
+      [⟨0, 4, [36, 53, 32, 117], some ⟨1, 1, [53]⟩⟩] ∧
+    (coreLoop ⟨fun ch => ch == 32, [], 3, true, false⟩ [36, 53, 32, 117, 32, 36, 55]
+      [⟨0, 1, [36]⟩, ⟨5, 1, [36]⟩] [] [] [⟨1, 1, [53]⟩, ⟨6, 1, [55]⟩]).result =
+      [⟨0, 2, [36, 53], some ⟨1, 1, [53]⟩⟩, ⟨5, 2, [36, 55], some ⟨1, 1, [55]⟩⟩] := by decide
+
+end RTV.UnitExtract
